@@ -5,7 +5,7 @@ Import ListNotations.
 From PG Require Import Common.Tactics Model.SymCoreDefs Model.SymCoreOps Model.SymCoreSpec Model.SymCoreC02
      Proofs.SymCoreBase Proofs.SymCoreWF Proofs.SymCoreWFOps Proofs.SymCoreClone Proofs.SymCoreIds Proofs.SymCoreC02Read
      Proofs.SymCoreC02Frame Proofs.SymCoreC02Prim Proofs.SymCoreC02List Proofs.SymCoreC02Dict Proofs.SymCoreC02Step
-     Proofs.SymCoreC02Slice Proofs.SymCoreC02WF Proofs.SymCoreC02Or.
+     Proofs.SymCoreC02Slice Proofs.SymCoreC02WF Proofs.SymCoreC02Or Proofs.SymCoreC02Rebind.
 From PG Require Model.PyList Model.PyDict.
 Local Open Scope Z_scope.
 
@@ -96,3 +96,12 @@ Proof. unfold ex_mul_history. cbn [lhist2_ok]. hist_ok. Qed.
 Example ex_or_hypotheses : plain_xdop (DOr [(ka, RLeaf (LInt 5)); (KI 3, RLit (LitNode KList default_flags true []))]) /\
   xdop_of (DROr [(kb, RLeaf LNone)]) = Some (PyDict.PDROr [(kb, PLeaf LNone)]).
 Proof. split; [split; [repeat constructor|]|reflexivity]. repeat constructor; simpl; intuition discriminate. Qed.
+
+(* a rebind batch on a 12-element list: the entry at index 10 is applied before the insertion at index 2 *)
+Definition ex_batch : list (list key * rvalue) := [([KI 2], RIns (RLeaf (LInt 100))); ([KI 10], RLeaf (LInt 101)); ([KI (-1)], RLeaf (LInt 102))].
+Example ex_batch_hypotheses : Forall SymCoreC02Rebind.entry_ok ex_batch /\ ex_batch <> [].
+Proof. split; [|discriminate]. repeat (constructor; [split; [eexists; reflexivity|reflexivity]|]). constructor. Qed.
+Example ex_batch_result :
+  SymCoreC02Rebind.py_lwrites (map (fun z => PLeaf (LInt z)) [0;1;2;3;4;5;6;7;8;9;10;11]) (map SymCoreC02Rebind.entry_w (sort_desc ex_batch)) =
+  (map (fun z => PLeaf (LInt z)) [0;1;100;2;3;4;5;6;7;8;9;101;102], None).
+Proof. vm_compute. reflexivity. Qed.
